@@ -114,12 +114,17 @@ type provEnv struct {
 	memo       map[ssa.Value]*provInfo
 	visiting   map[ssa.Value]bool
 	fresh      map[*ssa.Function]bool // returnsFresh summaries
+	// retParams: for a function whose returned pointerful values are rooted only
+	// in fresh memory and in its own parameters, the indices of those parameters
+	// (append-style helpers return their destination argument, not their source)
+	retParams map[*ssa.Function]map[int]bool
 	cellStores map[ssa.Value][]ssa.Value
 }
 
 func newProvEnv(p *Program) *provEnv {
-	e := &provEnv{p: p, memo: map[ssa.Value]*provInfo{}, visiting: map[ssa.Value]bool{}, fresh: map[*ssa.Function]bool{}, cellStores: map[ssa.Value][]ssa.Value{}}
+	e := &provEnv{p: p, memo: map[ssa.Value]*provInfo{}, visiting: map[ssa.Value]bool{}, fresh: map[*ssa.Function]bool{}, cellStores: map[ssa.Value][]ssa.Value{}, retParams: map[*ssa.Function]map[int]bool{}}
 	e.computeFresh()
+	e.computeRetParams()
 	return e
 }
 
@@ -365,6 +370,15 @@ func (e *provEnv) compute(v ssa.Value) *provInfo {
 				if e.fresh[cal] {
 					return freshInfo()
 				}
+				if rp, ok := e.retParams[cal]; ok && len(cal.FreeVars) == 0 {
+					i := freshInfo()
+					for idx, a := range x.Call.Args {
+						if rp[idx] {
+							i.add(e.of(a))
+						}
+					}
+					return i
+				}
 				i := newInfo()
 				for _, a := range x.Call.Args {
 					if hasPointers(a.Type()) && mayAliasTypes(x.Type(), a.Type()) {
@@ -426,6 +440,48 @@ func (e *provEnv) computeFresh() {
 			}
 			if ok {
 				e.fresh[f] = true
+				changed = true
+			}
+		}
+	}
+	e.memo = map[ssa.Value]*provInfo{}
+}
+
+// computeRetParams: summaries "the result is rooted in fresh memory and in
+// parameters I only", grown from no summaries (a function without a summary is
+// treated as returning memory of any pointerful argument).
+func (e *provEnv) computeRetParams() {
+	for changed := true; changed; {
+		changed = false
+		for _, f := range e.p.Funcs {
+			if _, done := e.retParams[f]; done || e.fresh[f] || f.Signature.Results().Len() == 0 || f.Blocks == nil {
+				continue
+			}
+			e.memo = map[ssa.Value]*provInfo{}
+			set := map[int]bool{}
+			ok := len(returnsOf(f)) > 0
+			for _, r := range returnsOf(f) {
+				for _, rv := range r.Results {
+					if !hasPointers(rv.Type()) {
+						continue
+					}
+					for b := range e.of(rv).bases {
+						switch b.kind {
+						case bkFresh:
+						case bkParam:
+							idx := paramIndex(f, b.param)
+							if idx < 0 {
+								ok = false
+							}
+							set[idx] = true
+						default:
+							ok = false
+						}
+					}
+				}
+			}
+			if ok {
+				e.retParams[f] = set
 				changed = true
 			}
 		}
